@@ -975,7 +975,10 @@ func main() {
 			// later bodies no larger than the first (a reused buffer would then be overwritten in place)
 			n := sizePool[r.Intn(len(sizePool))]
 			for n > first {
-				n = n/2 + 1
+				n /= 2
+			}
+			if n < 1 {
+				n = 1
 			}
 			if r.Chance(0.4) {
 				n = first
